@@ -94,7 +94,7 @@ Section Generic.
     let corr0 := if corr_update c then -1 else 0 in
     let cl := prop_update c in
     let prop0 := if cl =? 0 then -1 else 0 in
-    let code0 := if cl =? 0 then 0 else base + cl in
+    let code0 := if cl =? 0 then 0 else base + 90 + cl in      (* x91 / x92: apart from the abort codes x01.. *)
     check_ops (k_after c) (k_ops c) 1 corr0 prop0 code0.
 End Generic.
 
